@@ -1996,3 +1996,70 @@ Proof.
     rewrite Ep. destruct (is_running_like st) eqn:E1; [apply R1; reflexivity|].
     destruct (is_stopped_like st) eqn:E2; [rewrite (R2 eq_refl); reflexivity|reflexivity].
 Qed.
+
+(* Observation (DESIGN §6 F11, seen from C12): the "exactly" half of the statement — nothing from an instance
+   that is not seen RUNNING — is not covered by agreement_partial, and is false of the model: a process that is
+   STOPPING on an instance when that instance is lost is not invalidated (status.running_processes() requires
+   process.running()), so the lost instance stays in the running set of a STOPPED instance. *)
+Definition w_residue : list action :=
+  handshake_self 1 ++ handshake_self 2 ++ handshake 2 1 ++ handshake 1 2 ++
+  [ LocalChange 2 7 STOPPING true; Deliver 2 1; Fail 1 2; InvalidateAt 1 false ].
+
+Example lost_stopping_residue :
+  clean (cinit w_truths) w_residue = true
+  /\ (let c := final_of w_truths w_residue in
+      quiescent c = true /\ sees c 1 2 = Some ISTOPPED /\ running_at c 1 7 = [2]).
+Proof. vm_compute. repeat split; reflexivity. Qed.
+
+(* ---------- "whether a process is stopped or running is agreed" (forward direction) ---------- *)
+Lemma most_advanced_running : forall l st, In st l -> is_running_like st = true ->
+  is_running_like (most_advanced l) = true.
+Proof.
+  intros l st Hin Hr. unfold most_advanced.
+  destruct (existsb (pstate_eqb RUNNING) l) eqn:E1; [reflexivity|].
+  destruct (existsb (pstate_eqb BACKOFF) l) eqn:E2; [reflexivity|].
+  destruct (existsb (pstate_eqb STARTING) l) eqn:E3; [reflexivity|].
+  exfalso. destruct st; simpl in Hr; try discriminate.
+  - apply existsb_pstate_In in Hin. congruence.
+  - apply existsb_pstate_In in Hin. congruence.
+  - apply existsb_pstate_In in Hin. congruence.
+Qed.
+
+Lemma wfp_running_status : forall p i st e, wfp p -> pvinfo p i = Some (st, e) -> is_running_like st = true ->
+  is_running_like (p_state p) = true.
+Proof.
+  intros p i st e [sp HR] Hv Hr. rewrite (pvinfo_R p sp i HR) in Hv. unfold svinfo in Hv.
+  destruct (aget i (sp_infos sp)) as [si|] eqn:Ei; [|discriminate]. inversion Hv; subst. clear Hv.
+  destruct HR as [HR [_ Hst]].
+  pose proof (Rcore_skeys _ _ _ HR) as Hsk.
+  assert (Hok : listed_ok si).
+  { pose proof (rc_listed _ _ _ HR) as HF. rewrite Forall_forall in HF. apply (HF (i, si)). apply aget_In. exact Ei. }
+  assert (Hl : s_listed si = true) by (apply Hok; exact Hr).
+  assert (Hin : In (i, si) (listedF (sp_infos sp))) by (apply In_listedF; auto).
+  unfold state_agrees in Hst. rewrite spec_state_eq in Hst.
+  destruct (listedF (sp_infos sp)) as [|kv1 [|kv2 F]] eqn:EF.
+  - destruct Hin.
+  - destruct (Hst _ _ eq_refl) as [E _]. rewrite E. destruct Hin as [Hin|[]]. subst kv1. exact Hr.
+  - destruct (Hst _ _ eq_refl) as [E _]. rewrite E.
+    apply (most_advanced_running _ (s_state si)); [|exact Hr].
+    apply in_map_iff. exists (i, si). split; [reflexivity|exact Hin].
+Qed.
+
+(* if an instance that j sees RUNNING reports process k in a running state, j reports process k as running *)
+Theorem running_status_agreement : forall truths tr c,
+  (forall i t, aget i truths = Some t -> NoDup (akeys t)) ->
+  clean (cinit truths) tr = true -> crun (cinit truths) tr = Ok c ->
+  forall j i nj ni, aget j (c_nodes c) = Some nj -> aget i (c_nodes c) = Some ni ->
+    adm (cn_ctx nj) i = Some IRUNNING -> out_queue ni j = [] ->
+    forall k st e, aget k (cn_truth ni) = Some (st, e) -> is_running_like st = true ->
+      exists p, aget k (r_procs (cn_ctx nj)) = Some p /\ is_running_like (p_state p) = true.
+Proof.
+  intros truths tr c Ht Hc Hr j i nj ni Ej Ei Ha Hq k st e Hk Hrl.
+  pose proof (agreement_partial truths tr c Ht Hc Hr j i nj ni Ej Ei Ha Hq k (st, e) Hk) as Hv.
+  destruct (cinit_inv truths Ht) as [W0 P0].
+  destruct (clean_inv tr _ c W0 P0 Hc Hr) as [W _].
+  unfold rvinfo in Hv. destruct (aget k (r_procs (cn_ctx nj))) as [p|] eqn:Ep; [|discriminate].
+  exists p. split; [reflexivity|].
+  apply (wfp_running_status p i st e); auto.
+  apply (Fwfp_aget _ k p (nw_ctx _ _ _ (W j nj Ej)) Ep).
+Qed.
